@@ -103,6 +103,33 @@ func c04One(r *fw.Rec, id, x string) {
 			}
 		}
 	}
+	// binding of metadata references: every `!N` of the text is one edge to the
+	// object listed as !N (a copy, or another node, is a binding fault)
+	if len(c.Problems) == 0 {
+		if key, what := c17RefConservation(x, m); key != "" {
+			r.Violate(fw.Violation{Key: "binding/" + id + "/metadata-" + key, Input: x, What: what})
+		}
+	}
+	// binding of type names: in type definitions and global definitions (lines
+	// starting with % or @, and declarations) every named type is spelled as
+	// often in the printed module as in the input; a use resolved to the
+	// definition of another name changes the counts. Modules with type aliases
+	// (printed under the name of their target) are left out.
+	if len(c.Problems) == 0 && !reTypeAlias.MatchString(x) {
+		if y, pp := printGuard(m); pp == "" {
+			tx, ty := typeNameTokens(x), typeNameTokens(y)
+			for name, n := range tx {
+				if ty[name] != n {
+					r.Violate(fw.Violation{Key: "binding/" + id + "/type-name", Input: x,
+						What: fmt.Sprintf("the type %%%s is named %d times in the type, global and declaration lines of the input and %d times in the printed module: a use is bound to another definition", name, n, ty[name]), Observed: y})
+					break
+				}
+			}
+			if len(tx) > 0 {
+				r.TallyN("reference_slots", "binding.type-name-tokens", len(tx))
+			}
+		}
+	}
 	if total > 0 {
 		r.Nontrivial(x)
 	}
@@ -142,5 +169,83 @@ func blockAddressTokens(text string) []string {
 		}
 	}
 	sort.Strings(out)
+	return out
+}
+
+var reTypeAlias = regexp.MustCompile(`(?m)^%[^ ]+ = type %`)
+var reTypeDefLine = regexp.MustCompile(`(?m)^%("(?:[^"\\]|\\.)*"|[-a-zA-Z$._0-9]+) = type `)
+
+// typeNameTokens counts, per defined type name (as spelled, quotes kept only
+// where needed), the %name tokens on the type-definition, global and
+// declaration lines of a module text.
+func typeNameTokens(text string) map[string]int {
+	norm := func(tok string) string {
+		if len(tok) >= 2 && tok[0] == '"' {
+			inner := tok[1 : len(tok)-1]
+			plain := inner != ""
+			for i := 0; i < len(inner); i++ {
+				c := inner[i]
+				if !(c >= 'a' && c <= 'z' || c >= 'A' && c <= 'Z' || c == '.' || c == '_' || c == '$' || c == '-' || (i > 0 && c >= '0' && c <= '9')) {
+					plain = false
+				}
+			}
+			if plain {
+				return inner
+			}
+		}
+		return tok
+	}
+	defined := map[string]bool{}
+	for _, m := range reTypeDefLine.FindAllStringSubmatch(text, -1) {
+		defined[norm(m[1])] = true
+	}
+	out := map[string]int{}
+	if len(defined) == 0 {
+		return out
+	}
+	for _, line := range strings.Split(text, "\n") {
+		if !(strings.HasPrefix(line, "%") || strings.HasPrefix(line, "@") || strings.HasPrefix(line, "declare ")) {
+			continue
+		}
+		// left-to-right scan: %name / %"name" tokens are counted, other quoted
+		// strings (section names, c"..." arrays) and comments are skipped
+		for i := 0; i < len(line); {
+			c := line[i]
+			switch {
+			case c == ';':
+				i = len(line)
+			case c == '%' || c == '@' || c == '$' || c == '!':
+				j := i + 1
+				if j < len(line) && line[j] == '"' {
+					j++
+					for j < len(line) && line[j] != '"' {
+						j++
+					}
+					j++
+				} else {
+					for j < len(line) && (line[j] == '-' || line[j] == '$' || line[j] == '.' || line[j] == '_' || line[j] >= '0' && line[j] <= '9' || line[j] >= 'a' && line[j] <= 'z' || line[j] >= 'A' && line[j] <= 'Z') {
+						j++
+					}
+				}
+				if j > len(line) {
+					j = len(line)
+				}
+				if c == '%' && j > i+1 {
+					if n := norm(line[i+1 : j]); defined[n] {
+						out[n]++
+					}
+				}
+				i = j
+			case c == '"':
+				i++
+				for i < len(line) && line[i] != '"' {
+					i++
+				}
+				i++
+			default:
+				i++
+			}
+		}
+	}
 	return out
 }
